@@ -386,7 +386,7 @@ pub fn check_against_state(
     // the output must be one of the abstract components the contract allows
     let mut first = None;
     for want in variants {
-        let bad = check_variant(lib, m, want, &d, define_components);
+        let bad = check_variant(lib, Some(m), want, &d, define_components);
         if bad.is_empty() {
             return bad;
         }
@@ -395,9 +395,12 @@ pub fn check_against_state(
     first.unwrap_or_default()
 }
 
-fn check_variant(
+/// Compares a decoded output with one abstract component; `m` supplies the definable types of a
+/// replay machine (None when the composition defines no types).  Expected name-section entries
+/// carry either a `name` or the node `id` (named `nm<id>` by the graph replay).
+pub fn check_variant(
     lib: &Lib,
-    m: &Machine,
+    m: Option<&Machine>,
     want: &Value,
     d: &Decoded,
     define_components: bool,
@@ -503,7 +506,6 @@ fn check_variant(
         }
     }
     // export kinds: the kind of the designated item
-    let g = &m.world.graph;
     let want_kinds: BTreeMap<String, Value> = want["exports"]
         .as_array()
         .unwrap()
@@ -516,9 +518,9 @@ fn check_variant(
             if want_kind["c"] == "type" {
                 // definitions are compared structurally: the harness created the definable types
                 if let Some(wac_types::Type::Value(v)) =
-                    m.world.def_types.get(want_kind["id"].as_str().unwrap_or(""))
+                    m.and_then(|m| m.world.def_types.get(want_kind["id"].as_str().unwrap_or("")))
                 {
-                    want_kind = json!({"c": "type", "desc": crate::describe::value_desc(g.types(), *v)});
+                    want_kind = json!({"c": "type", "desc": crate::describe::value_desc(m.unwrap().world.graph.types(), *v)});
                 }
             }
             if &want_kind != kind {
@@ -558,7 +560,8 @@ fn check_variant(
                 "type" | "rtype" => "type",
                 o => o,
             };
-            json!([sort, format!("nm{}", x["id"]), norm_spec_term(&x["term"])]).to_string()
+            let name = x["name"].as_str().map(|s| s.to_string()).unwrap_or_else(|| format!("nm{}", x["id"]));
+            json!([sort, name, norm_spec_term(&x["term"])]).to_string()
         })
         .collect();
     exp_names.sort();
